@@ -106,16 +106,10 @@ def runBinary (op : String) (A B : DT) : Answer :=
 def dtsOf (ins : List (Option DT)) : List (Option DType) := ins.map (·.map (·.dt))
 
 /-- operator-level case: gate (over the regenerated registry) then the operator model -/
-def runOp (op : String) (_attrs : Json) (ins : List (Option DT)) : Answer :=
-  match gate Generated.registry op (dtsOf ins) with
-  | .error e => { model := .ofErr e, tags := ["gate-refuses"],
-                  spec := { domain := if e == .panic then "unspecified" else "mayRefuse" } }
-  | .ok _ =>
-    if isArith op || isCmp op || isLogic op then
-      match ins with
-      | [some A, some B] => runBinary op A B
-      | _ => { model := { status := "unmodelled" } }
-    else { model := { status := "unmodelled" } }
+def runOpBinary (op : String) (_attrs : Json) (ins : List (Option DT)) : Answer :=
+  match ins with
+  | [some A, some B] => runBinary op A B
+  | _ => { model := { status := "unmodelled" } }
 
 end Drv
 
